@@ -12,6 +12,14 @@ pub uninterp spec fn bytes(s: &str) -> nat;          // str::len: number of UTF-
 pub uninterp spec fn graphemes(s: &str) -> nat;      // utils::utf8_len = number of extended grapheme clusters
 pub uninterp spec fn lower(s: &str) -> Seq<char>;    // str::to_lowercase
 pub assume_specification[ str::to_lowercase ](s: &str) -> (r: String) ensures r@ == lower(s);
+// other case / whitespace foldings of std: each is its OWN uninterpreted function — none of them is the Unicode lower-casing
+// the badlist is stored under (so substituting one for to_lowercase is seen by the contract)
+pub uninterp spec fn ascii_lower(s: &str) -> Seq<char>;
+pub uninterp spec fn upper(s: &str) -> Seq<char>;
+pub uninterp spec fn ascii_upper(s: &str) -> Seq<char>;
+pub assume_specification[ str::to_ascii_lowercase ](s: &str) -> (r: String) ensures r@ == ascii_lower(s);
+pub assume_specification[ str::to_uppercase ](s: &str) -> (r: String) ensures r@ == upper(s);
+pub assume_specification[ str::to_ascii_uppercase ](s: &str) -> (r: String) ensures r@ == ascii_upper(s);
 #[verifier::external_body] pub fn utf8_len(value: &str) -> (r: usize) ensures r == graphemes(value) { unimplemented!() }
 // R3: str::contains (generic over Pattern) redirected; substring tests play no role in the property
 #[verifier::external_body] pub fn kvx_str_contains(hay: &str, needle: &str) -> (r: bool) { unimplemented!() }
